@@ -225,10 +225,9 @@ func (m *ModeManager) loadDRAutoSync() error {
 	return nil
 }
 
-func (m *ModeManager) drCheckAsyncTimeout() bool {
+func (m *ModeManager) drCheckAsyncTimeout(timeout time.Duration) bool {
 	m.RLock()
 	defer m.RUnlock()
-	timeout := m.config.DRAutoSync.WaitAsyncTimeout.Duration
 	if timeout == 0 {
 		return true
 	}
@@ -394,10 +393,13 @@ func (m *ModeManager) tickDR() {
 
 	drTickCounter.Inc()
 
+	// One tick decides on one configuration: a config update landing in the middle of the tick
+	// must not be mixed with the values already read.
 	m.RLock()
-	totalPrimary, totalDr := m.config.DRAutoSync.PrimaryReplicas, m.config.DRAutoSync.DRReplicas
+	cfg := m.config.DRAutoSync
 	m.RUnlock()
-	downPrimary, downDr := m.checkStoreStatus()
+	totalPrimary, totalDr := cfg.PrimaryReplicas, cfg.DRReplicas
+	downPrimary, downDr := m.checkStoreStatus(cfg)
 
 	// canSync is true when every region has at least 1 replica in each DC.
 	canSync := downPrimary < totalPrimary && downDr < totalDr
@@ -413,7 +415,7 @@ func (m *ModeManager) tickDR() {
 	hasMajority := upPeers*2 > totalPrimary+totalDr
 
 	// If hasMajority is false, the cluster is always unavailable. Switch to async won't help.
-	if !canSync && hasMajority && m.drGetState() != drStateAsync && m.drCheckAsyncTimeout() {
+	if !canSync && hasMajority && m.drGetState() != drStateAsync && m.drCheckAsyncTimeout(cfg.WaitAsyncTimeout.Duration) {
 		m.drSwitchToAsync()
 	}
 
@@ -433,16 +435,16 @@ func (m *ModeManager) tickDR() {
 	}
 }
 
-func (m *ModeManager) checkStoreStatus() (primaryFailCount, drFailCount int) {
+func (m *ModeManager) checkStoreStatus(cfg config.DRAutoSyncReplicationConfig) (primaryFailCount, drFailCount int) {
 	m.RLock()
 	defer m.RUnlock()
 	for _, s := range m.cluster.GetStores() {
-		if !s.IsTombstone() && s.DownTime() >= m.config.DRAutoSync.WaitStoreTimeout.Duration {
-			labelValue := s.GetLabelValue(m.config.DRAutoSync.LabelKey)
-			if labelValue == m.config.DRAutoSync.Primary {
+		if !s.IsTombstone() && s.DownTime() >= cfg.WaitStoreTimeout.Duration {
+			labelValue := s.GetLabelValue(cfg.LabelKey)
+			if labelValue == cfg.Primary {
 				primaryFailCount++
 			}
-			if labelValue == m.config.DRAutoSync.DR {
+			if labelValue == cfg.DR {
 				drFailCount++
 			}
 		}
